@@ -109,6 +109,7 @@ func (hs *heightSub) WaitUnless(ctx context.Context, height uint64, present func
 	}
 	sac.count++
 	hs.heightSubsLk.Unlock()
+	verifPoint(ctx, "wait.subscribed", height)
 
 	if present != nil && present() {
 		hs.heightSubsLk.Lock()
